@@ -225,6 +225,29 @@ func c11Work(w *Worker) {
 		}
 	}
 	rec()
+	// many automatically numbered tokens next to a literal that is only used in a rule (and one that is
+	// declared): the automatic codes must flow around the character codes, however many there are
+	base := int64(1) << 43
+	for _, n := range []int{40, 60, 96, 130} {
+		for _, kind := range []string{"lituse", "lit", "litprec"} {
+			for _, ch := range []rune{'+', 'a', '{'} {
+				if w.Mine(base) {
+					var slots []tokSlot
+					for i := 0; i < n; i++ {
+						slots = append(slots, tokSlot{Kind: "auto"})
+					}
+					slots = append(slots, tokSlot{Kind: kind, Char: ch})
+					c := &c11Case{Slots: slots}
+					w.Begin(base, map[string]interface{}{"origin": "c11-many-autos", "n": n, "kind": kind, "char": string(ch)})
+					w.Count("many_auto_mixes", 1)
+					if c11Eval(w, c, false) && n == 96 {
+						compile = append(compile, c)
+					}
+				}
+				base++
+			}
+		}
+	}
 	for lo := 0; lo < len(compile); lo += 100 {
 		hi := lo + 100
 		if hi > len(compile) {
